@@ -140,7 +140,7 @@ func c17Binom(n, k int) int64 {
 func c17Count(o c17Output, depth int, fail bool) int64 {
 	L := len([]rune(o.Text))
 	if fail {
-		return c17Binom(L, depth)
+		return 2 * c17Binom(L, depth) // (ending in an error, ending in nothing)
 	}
 	if L == 0 {
 		if depth == 0 {
@@ -166,6 +166,10 @@ func c17Scripts(o c17Output, depth int, fail bool, fn func(idx int64, s c17Scrip
 			c := append([]int{}, cuts...)
 			if fail {
 				if !fn(idx, c17Script{Cuts: c, Fail: true}) {
+					return false
+				}
+				idx++
+				if !fn(idx, c17Script{Cuts: c, Fail: true, NoDone: true}) {
 					return false
 				}
 				idx++
@@ -201,7 +205,7 @@ func c17RunVariant(e *c17Env, f c17Family, o c17Output, s c17Script, variant str
 	if err != nil {
 		return c17Outcome{End: "malformed", Note: "harness script: " + err.Error()}
 	}
-	e.runner.cbs, e.runner.fail, e.runner.calls = cbs, s.Fail, 0
+	e.runner.cbs, e.runner.fail, e.runner.nodone, e.runner.calls = cbs, s.Fail, s.NoDone, 0
 	path, body := c17Body(f, variant)
 	stream := strings.Contains(variant, "/stream")
 	var out c17Outcome
@@ -358,11 +362,14 @@ func c17Check(e *c17Env, f c17Family, o c17Output, s c17Script, bl *c17Baseline)
 	if s.Fail {
 		want, when = "error", "on-runner-error"
 	}
+	if s.NoDone {
+		when = "on-runner-end-without-done"
+	}
 	// clause: every response ends with exactly one final message or exactly one error
 	for _, v := range vars {
 		out := outs[v]
-		if out.End == want {
-			continue
+		if out.End == want || (s.NoDone && out.End == "final") {
+			continue // (a runner that just stops may be answered with a final message or with an error)
 		}
 		if strings.HasPrefix(v, "client/") {
 			raw := outs["native/"+strings.TrimPrefix(v, "client/")]
